@@ -37,6 +37,27 @@ def string_pairs(rng, n):
     return out
 
 
+def large_pairs(rng):
+    """inputs beyond any plausible size threshold (a 'fast path for big documents' would start somewhere): changes that sit next to a
+    copy of themselves (so that common prefix and common suffix overlap), grown runs of blank lines, repeated rows, and ordinary edits
+    deep inside a large text"""
+    out = []
+    for n in (1500, 12000, 40000, 140000):
+        out.append(('a' * n, 'a' * (n + 1)))
+        out.append(('ab' * (n // 2), 'ab' * (n // 2 + 1)))
+        out.append(('x\n' + '\n' * n + 'y', 'x\n' + '\n' * (n + 2) + 'y'))
+        row = '<tr><td>No data</td></tr>\n'
+        head = ''.join('<tr><td>%d</td></tr>\n' % i for i in range(n // 20))
+        out.append((head + row + '</table>', head + row + row + '</table>'))
+        out.append((head + row + row + '</table>', head + row + '</table>'))
+        words = [rng.choice(htmlgen.WORDS) for _ in range(n // 6)]
+        k = len(words) // 2
+        out.append((' '.join(words), ' '.join(words[:k] + ['inserted', 'words'] + words[k:])))
+        out.append((' '.join(words), ' '.join(words[:k] + words[k + 3:])))
+        out.append((' '.join(words), ' '.join(words)))
+    return out
+
+
 def recon(diff):
     return (''.join(s for c, s in diff if c in (0, -1)), ''.join(s for c, s in diff if c in (0, 1)))
 
@@ -84,6 +105,9 @@ def run(rep, ctx):
     scope = list(itertools.product(small, small))
     rep.extra['small_scope_exhaustive_pairs'] = len(scope)
     pairs += scope
+    big = large_pairs(rng)
+    rep.extra['large_pairs'] = {'count': len(big), 'largest': max(len(a) + len(b) for a, b in big)}
+    pairs += big
     n_contract = n_src = n_corr = 0
     lines, srcs = [], []
     for a, b in pairs:
@@ -117,6 +141,8 @@ def run(rep, ctx):
             n_src += 1
             if n_src <= 3:
                 rep.violation('source-diff-%d' % n_src, {'what': fails, 'a_text': a, 'b_text': b, 'result': r, 'call': 'html_source_diff(a_text, b_text)'})
+        if len(a) + len(b) > 6000:        # the large inputs go through the observer and the contract check only
+            continue
         ops = raw_dmp(a, b, checklines=False, timelimit=2, cleanup='Semantic', counts_only=False)
         lines.append('source_diff %s' % L(P(I(ord(op)), S(s)) for op, s in ops))
         srcs.append((a, b, r, ops))
@@ -149,6 +175,9 @@ def run(rep, ctx):
         docs.append((g.document(a), g.document(b)))
     docs += [('', '<p>x</p>'), ('<p>a</p>\n\n\n\n<p>b</p>', '<p>a</p>\n<p>b</p>'), ('<pre>a\n\n\n   \n b</pre>', '<pre>a\n \n b</pre>'),
              ('&lt;!-- not a comment --&gt; text', 'text'), ('<head><title>T</title></head>x', '<head><title>U</title></head>x')]
+    n_small_docs = len(docs)
+    docs += [('<table>' + a if '<tr>' in a else '<p>' + a + '</p>', '<table>' + b if '<tr>' in b else '<p>' + b + '</p>') for a, b in big
+             if '\n\n\n' not in a and len(a) < 150000]
     n_txt = n_vis = n_inv = 0
     lines = []
     for a, b in docs:
@@ -166,7 +195,8 @@ def run(rep, ctx):
             n_txt += 1
             if n_txt <= 2:
                 rep.violation('text-diff-%d' % n_txt, {'what': fails, 'a_text': a, 'b_text': b, 'html_text_diff': r, 'side_by_side_text': sbs})
-        lines.append('get_visible_text %s' % L(P(S(p), S(s)) for p, s in text_nodes(a)))
+        if len(a) <= 6000:
+            lines.append('get_visible_text %s' % L(P(S(p), S(s)) for p, s in text_nodes(a)))
         # invisible edits never change anything
         edit = rng.choice(INVISIBLE_EDITS)
         a2 = edit(rng, a)
@@ -180,7 +210,7 @@ def run(rep, ctx):
                     rep.violation('invisible-%d' % n_inv, {'what': 'content that is not displayed changed the visible-text diff / side-by-side view',
                                                            'a_text': a, 'a_text_with_invisible_edit': a2, 'b_text': b, 'before': r, 'after': r2})
     if ctx['model_available']:
-        for (a, b), mv in zip(docs, run_driver(lines)):
+        for (a, b), mv in zip([d for d in docs if len(d[0]) <= 6000], run_driver(lines)):
             impl = bd._get_visible_text(a)
             if isinstance(mv, tuple) or to_str(mv) != impl:
                 n_vis += 1
